@@ -56,6 +56,8 @@ def run(ctx: Ctx) -> None:
     from ..tables import t10_flow
     t10_flow.run_flow_sample(ctx)  # mechanism "vector rescaling on regridding" (FlowFields.sample)
     ctx.floor("T10x.sample", 16)
+    t10_flow.run_single_field(ctx)  # a single FlowField runs every operation through a one-item batch and must come back as itself
+    ctx.floor("T10x.single-field", 8)
     # (checked last so that semantic findings are reported even when the syntactic pairing pattern is no longer recognised)
     ctx.require(n_pairs >= 11, f"only {n_pairs} ImageBatch methods pair a tensor op with a Grid op (expected >= 11)")
 
